@@ -233,9 +233,54 @@ Definition hdr_get (k : bytes) (h : header) : list bytes := match assoc k h with
 Definition hdr_del (k : bytes) (h : header) : header := filter (fun kv => negb (bytes_eqb k (fst kv))) h.
 Definition hdr_add (k v : bytes) (h : header) : header := hdr_set k (hdr_get k h ++ [v]) h.
 
-Definition header_accepts (cmd : bytes) (params : list bytes) : bool :=
-  table_accepts header_check_table cmd params && forallb nonempty params.
-Inductive hcmd := HSet | HAdd | HDel.
+Definition s_REQ_HEADER_RENAME := Eval compute in bs "REQ_HEADER_RENAME".
+Definition s_RSP_HEADER_RENAME := Eval compute in bs "RSP_HEADER_RENAME".
+Definition s_REQ_HEADER_MOD := Eval compute in bs "REQ_HEADER_MOD".
+Definition s_RSP_HEADER_MOD := Eval compute in bs "RSP_HEADER_MOD".
+Definition s_Referer := Eval compute in bs "Referer".
+Definition s_Location := Eval compute in bs "Location".
+Definition s_http_css := Eval compute in bs "http://".
+Definition s_https_css := Eval compute in bs "https://".
+
+(* ---- header value templates: splitParam / preProcessParams / getHeaderValue (ASCII values) ---- *)
+Fixpoint span (f : Z -> bool) (s : bytes) : bytes * bytes :=
+  match s with
+  | [] => ([], [])
+  | c :: r => if f c then let '(a, b) := span f r in (c :: a, b) else ([], s)
+  end.
+Definition not_pct (c : Z) : bool := negb (c =? 37).
+Definition is_varchar (c : Z) : bool := ((97 <=? c) && (c <=? 122)) || ((48 <=? c) && (c <=? 57)) || (c =? 95).
+(* splitParam: literal runs, "%%" + literal run, "%" + [a-z0-9_]*  (a lone trailing "%" is a piece of its own) *)
+Fixpoint split_param (fuel : nat) (s : bytes) : list bytes :=
+  match fuel with
+  | O => []
+  | S f =>
+    match s with
+    | [] => []
+    | c :: r =>
+      if not_pct c then let '(lit, rest) := span not_pct r in (c :: lit) :: split_param f rest
+      else match r with
+           | [] => [[37]]
+           | d :: r' =>
+             if d =? 37 then let '(lit, rest) := span not_pct r' in (37 :: 37 :: lit) :: split_param f rest
+             else let '(v, rest) := span is_varchar r in (37 :: v) :: split_param f rest
+           end
+    end
+  end.
+Definition pieces (v : bytes) : list bytes := split_param (S (List.length v)) v.
+Definition is_var_piece (p : bytes) : bool := is_prefix [37] p && negb (is_prefix [37; 37] p).
+(* preProcessParams: every %name piece must name a known variable (looked up lower-cased) *)
+Definition value_ok (v : bytes) : bool :=
+  forallb (fun p => negb (is_var_piece p) || mem (to_lower (tl p)) header_variables) (pieces v).
+(* getHeaderValue: vars = the values of the variable handlers for this request (external, supplied per case) *)
+Definition eval_piece (vars : list (bytes * bytes)) (p : bytes) : bytes :=
+  if is_prefix [37] p then match assoc (tl p) vars with Some x => x | None => tl p end else p.
+Definition eval_value (vars : list (bytes * bytes)) (v : bytes) : bytes := flat_map (eval_piece vars) (pieces v).
+(* every variable a value uses has a value in vars *)
+Definition vars_cover (vars : list (bytes * bytes)) (v : bytes) : bool :=
+  forallb (fun p => negb (is_var_piece p) || match assoc (tl p) vars with Some _ => true | None => false end) (pieces v).
+
+Inductive hcmd := HSet | HAdd | HDel | HRename | HModScheme.
 Definition header_cmd (cmd : bytes) : option (bool * hcmd) :=       (* true = request header *)
   if bytes_eqb cmd s_REQ_HEADER_SET then Some (true, HSet)
   else if bytes_eqb cmd s_REQ_HEADER_ADD then Some (true, HAdd)
@@ -243,28 +288,87 @@ Definition header_cmd (cmd : bytes) : option (bool * hcmd) :=       (* true = re
   else if bytes_eqb cmd s_RSP_HEADER_SET then Some (false, HSet)
   else if bytes_eqb cmd s_RSP_HEADER_ADD then Some (false, HAdd)
   else if bytes_eqb cmd s_RSP_HEADER_DEL then Some (false, HDel)
+  else if bytes_eqb cmd s_REQ_HEADER_RENAME then Some (true, HRename)
+  else if bytes_eqb cmd s_RSP_HEADER_RENAME then Some (false, HRename)
+  else if bytes_eqb cmd s_REQ_HEADER_MOD then Some (true, HModScheme)
+  else if bytes_eqb cmd s_RSP_HEADER_MOD then Some (false, HModScheme)
   else None.
+(* checkHeaderModParams restricted to the SCHEME_SET sub-command (QUERY_ADD uses url.Parse: outside the model) *)
+Definition mod_scheme_params_ok (params : list bytes) : bool :=
+  (llen params =? 3)
+  && bytes_eqb (to_upper (nth 0 params [])) s_SCHEME_SET
+  && (bytes_eqb (canonical_key (nth 1 params [])) s_Referer || bytes_eqb (canonical_key (nth 1 params [])) s_Location)
+  && (bytes_eqb (nth 2 params []) s_http || bytes_eqb (nth 2 params []) s_https).
+Definition header_accepts (cmd : bytes) (params : list bytes) : bool :=
+  table_accepts header_check_table cmd params && forallb nonempty params
+  && match header_cmd cmd with
+     | Some (_, HModScheme) => mod_scheme_params_ok params
+     | Some (_, HSet) | Some (_, HAdd) => value_ok (nth 1 params [])          (* actionConvert *)
+     | _ => true
+     end.
+Definition hdr_first (k : bytes) (h : header) : bytes := hd [] (hdr_get k h).          (* Header.Get *)
+(* setScheme *)
+Definition set_scheme (uri scheme : bytes) : bytes :=
+  if is_prefix s_http_css uri then scheme ++ skipn 4 uri
+  else if is_prefix s_https_css uri then scheme ++ skipn 5 uri
+  else uri.
 Definition header_apply (c : hcmd) (params : list bytes) (h : header) : header :=
   let k := canonical_key (nth 0 params []) in
   match c with
   | HSet => hdr_set k [nth 1 params []] h
   | HAdd => hdr_add k (nth 1 params []) h
   | HDel => hdr_del k h
+  | HRename =>
+    (* only if the old field has a non-empty first value and the new one has none; first value only *)
+    let k2 := canonical_key (nth 1 params []) in
+    if nonempty (hdr_first k h) && negb (nonempty (hdr_first k2 h))
+    then hdr_del k (hdr_set k2 [hdr_first k h] h) else h
+  | HModScheme =>
+    let k1 := canonical_key (nth 1 params []) in
+    if nonempty (hdr_first k1 h) then hdr_set k1 [set_scheme (hdr_first k1 h) (nth 2 params [])] h else h
   end.
-(* one documented header action with a literal ('%'-free) value: (request header, response header) afterwards *)
-Definition header_run (cmd : bytes) (params : list bytes) (req rsp : header) : option (header * header) :=
+(* the action as stored after actionConvert, with the value template evaluated for this request *)
+Definition header_params (vars : list (bytes * bytes)) (c : hcmd) (params : list bytes) : list bytes :=
+  match c with
+  | HSet | HAdd => [nth 0 params []; eval_value vars (nth 1 params [])]
+  | _ => params
+  end.
+(* one header action: (request header, response header) afterwards *)
+Definition header_run (vars : list (bytes * bytes)) (cmd : bytes) (params : list bytes) (req rsp : header)
+  : option (header * header) :=
   if header_accepts cmd params then
     match header_cmd cmd with
-    | Some (true, c) => Some (header_apply c params req, rsp)
-    | Some (false, c) => Some (req, header_apply c params rsp)
-    | None => None                     (* accepted but not a documented command: outside this model *)
+    | Some (true, c) => Some (header_apply c (header_params vars c params) req, rsp)
+    | Some (false, c) => Some (req, header_apply c (header_params vars c params) rsp)
+    | None => None                     (* accepted but outside this model (cookie commands) *)
+    end
+  else None.
+
+(* ---------- bfe_basic/action used directly (Action.UnmarshalJSON + Action.Do, no allow-list) ---------- *)
+Definition direct_run (cmd : bytes) (params : list bytes) (u : url) (h : header) : option (url * header) :=
+  if action_file_check cmd params then
+    let c := to_upper cmd in
+    match header_cmd c with
+    | Some (true, HSet) => Some (u, header_apply HSet params h)
+    | Some (true, HAdd) => Some (u, header_apply HAdd params h)
+    | Some (true, HDel) => Some (u, header_apply HDel params h)
+    | _ => Some (action_do c params u, h)                (* CLOSE / PASS / FINISH: nothing *)
     end
   else None.
 
 (* ---------- mod_redirect ---------- *)
-(* URL.RequestURI() for paths that need no escaping *)
+(* net/url escape(path, encodePath): letters, digits and -_.~$&+,/:;=@ are kept, every other byte becomes %XX *)
+Definition path_keep (c : Z) : bool :=
+  ((48 <=? c) && (c <=? 57)) || ((65 <=? c) && (c <=? 90)) || ((97 <=? c) && (c <=? 122))
+  || existsb (Z.eqb c) [45; 95; 46; 126; 36; 38; 43; 44; 47; 58; 59; 61; 64].
+Definition hexdigit (n : Z) : Z := if n <? 10 then 48 + n else 55 + n.
+Definition escape_path (p : bytes) : bytes :=
+  flat_map (fun c => if path_keep c then [c] else [37; hexdigit (c / 16); hexdigit (c mod 16)]) p.
+(* URL.EscapedPath() with RawPath unset *)
+Definition escaped_path (p : bytes) : bytes := if bytes_eqb p [42] then [42] else escape_path p.
+(* URL.RequestURI() with Opaque unset *)
 Definition request_uri (u : url) : bytes :=
-  (match u_path u with [] => [47] | p => p end) ++ (match u_query u with [] => [] | q => 63 :: q end).
+  (match escaped_path (u_path u) with [] => [47] | p => p end) ++ (match u_query u with [] => [] | q => 63 :: q end).
 Definition redirect_accepts (cmd : bytes) (params : list bytes) : bool :=
   table_accepts redirect_check_table cmd params
   && (negb (bytes_eqb cmd s_SCHEME_SET)
